@@ -320,6 +320,7 @@ def case_strategy():
             "indent": st.integers(0, 3),
             "eol": st.sampled_from(EOLS),
             "prior": st.sampled_from([False, False, "trusted", "failed", "both"]),
+            "mode": st.sampled_from(["invisible", "invisible", "invisible", "json"]),
         }
     )
 
@@ -448,6 +449,18 @@ def _render(objs, case, has_tfy):
 
 
 def body_slots(case, note):
+    import htmltools as h
+
+    # the global that decides how str() shows dependencies (these trees hold none): text children are data all the same
+    saved = h.html_dependency_render_mode
+    h.html_dependency_render_mode = case.get("mode", "invisible")
+    try:
+        _slots_body(case, note)
+    finally:
+        h.html_dependency_render_mode = saved
+
+
+def _slots_body(case, note):
     b0 = _Builder(False)
     objs0 = [b0.node(r) for r in case["roots"]]
     b1 = _Builder(True)
@@ -471,6 +484,9 @@ def body_slots(case, note):
         # never expanded; a self-rendering object whose _repr_html_ raises), inside raw-text and ordinary elements
         import htmltools as h
 
+        from hv.history import failed_operations
+
+        failed_operations(case["indent"], case["eol"], key=case["roots"])
         for nm in ("script", "style", "div"):
             for kids in (("x<y", Tfy({"k": "text", "s": "z"})), (h.Tag("p", "a<b", _Boom()), "c&d"), ("q", h.Tag("b", "r", Tfy({"k": "text", "s": "z"}), _add_ws=False))):
                 for f in (lambda t: t.get_html_string(), lambda t: h.TagList("w", t).get_html_string(case["indent"], case["eol"])):
@@ -518,6 +534,8 @@ def body_slots(case, note):
         classes.append("prior-trusted-render")
     if prior in ("failed", "both"):
         classes.append("prior-failed-render")
+    if case.get("mode") == "json":
+        classes.append("json-render-mode")
     note(bool(meta_slots) and not only_child, *classes)
 
 
@@ -545,7 +563,7 @@ CLAUSES = [
         quick=1200,
         thorough=20000,
         shards_quick=4,
-        required=("how:append", "how:extend", "how:insert", "how:list", "how:tfy", "how:ctor", "number", "long-text", "prior-trusted-render", "prior-failed-render", "number-subclass-with-metachar-text", "str-subclass-with-metachar", "how:renamed"),
+        required=("how:append", "how:extend", "how:insert", "how:list", "how:tfy", "how:ctor", "number", "long-text", "prior-trusted-render", "prior-failed-render", "number-subclass-with-metachar-text", "str-subclass-with-metachar", "how:renamed", "json-render-mode"),
         rule="metachar slot not an only child",
         fuzz=60000,
     ),
